@@ -5,7 +5,7 @@
 From Coq Require Import ZArith QArith.
 From PV Require Import Lib.Base Model.Prng Model.Core Model.Stratified.
 From mathcomp Require Import all_ssreflect.
-From PV Require Import Lib.Shuffle Proofs.StratProofs Proofs.StratUniform.
+From PV Require Import Lib.Shuffle Lib.Counting Proofs.StratProofs Proofs.StratUniform Proofs.StratBinomial.
 Local Open Scope nat_scope.
 
 (* permute_within_groups (used by sim_corr, stratified_permutationtest, stratified_two_sample,
@@ -49,6 +49,67 @@ Theorem C02_within_group_permutation_is_uniform_on_the_product : forall g : seq 
 Proof. exact pwg_uniform. Qed.
 Print Assumptions C02_within_group_permutation_is_uniform_on_the_product.
 
+(* The hit count of the stratified Monte-Carlo tests is Binomial(reps, pstar): every repetition permutes the
+   ORIGINAL vector within strata with its own block of answers; over the (prod_k n_k!)^reps equally likely answer
+   sequences exactly C(reps,h) a^h (prod_k n_k! - a)^(reps-h) give h arrangements at least as extreme as observed ... *)
+Theorem C02_stratified_hit_count_is_binomial : forall (g : seq Z) (extreme : seq nat -> bool) (r h : nat),
+  let n := size g in
+  let space := prod_draws (sizes g (unique g)) in
+  let a := count (fun t => extreme (pwg_out g t)) space in
+  count (fun ds => count extreme (if pwg_reps 0 (iota 0 n) g r (flatten ds) is Ok rt then rt.1 else [::]) == h)
+        (tuples space r)
+  = 'C(r, h) * a ^ h * (size space - a) ^ (r - h).
+Proof. exact strat_hits_binomial. Qed.
+Print Assumptions C02_stratified_hit_count_is_binomial.
+
+(* ... where a / |space| = pstar = (extreme admissible arrangements) / (admissible arrangements), for every
+   duplicate-free enumeration L of the position permutations that keep every unit in its stratum *)
+Theorem C02_stratified_pstar_counts_admissible_arrangements :
+  forall (g : seq Z) (extreme : seq nat -> bool) (L : seq (seq nat)),
+  uniq L -> (forall sg, sg \in L <-> admissible g sg) ->
+  count (fun t => extreme (pwg_out g t)) (prod_draws (sizes g (unique g))) = count extreme L /\
+  size (prod_draws (sizes g (unique g))) = size L.
+Proof. exact strat_pstar. Qed.
+Print Assumptions C02_stratified_pstar_counts_admissible_arrangements.
+
+(* the count #{dist >= observed} the stratified tests turn into their p-value has that law, for data of any type
+   and any statistic of the rearranged data *)
+Theorem C02_stratified_tests_count_ge_is_binomial :
+  forall (T : Type) (x0 : T) (x : seq T) (g : seq Z), size x = size g ->
+  forall (stat : seq T -> Q) (tst : Q) (r h : nat),
+  let space := prod_draws (sizes g (unique g)) in
+  let ext := fun sg : seq nat => Qle_bool tst (stat [seq nth x0 x i | i <- sg]) in
+  count (fun ds => (if pwg_reps x0 x g r (flatten ds) is Ok rt then count_ge tst [seq stat row | row <- rt.1] else 0) == h)
+        (tuples space r)
+  = 'C(r, h) * (count (fun t => ext (pwg_out g t)) space) ^ h
+    * (size space - count (fun t => ext (pwg_out g t)) space) ^ (r - h).
+Proof. intros; exact: strat_count_ge_binomial. Qed.
+Print Assumptions C02_stratified_tests_count_ge_is_binomial.
+
+(* bivariate_k_sample and stratified_two_sample on that answer space: all answers consumed, the p-value is the
+   table entry of exactly that count over the arrangements selected by the answers *)
+Theorem C02_bivariate_k_sample_on_the_answer_space : forall (x : seq Q) (g1 g2 : seq Z) r plus1 ds,
+  size g2 = size g1 -> ds \in tuples (prod_draws (sizes g1 (unique g1))) r ->
+  let rows := [seq [seq nth 0%Z g2 i | i <- pwg_out g1 t] | t <- ds] in
+  let tst := two_way_anova x g2 (qmean x) in
+  let d := [seq two_way_anova x gp (qmean x) | gp <- rows] in
+  bivariate_k_sample x g1 g2 r plus1 (flatten ds) =
+  Ok (perm_pvalue (cc plus1) (count_ge tst d) (length d), tst, d, rows, [::]).
+Proof. exact bivariate_on_space. Qed.
+Print Assumptions C02_bivariate_k_sample_on_the_answer_space.
+
+Theorem C02_stratified_two_sample_on_the_answer_space : forall (g c : seq Z) (resp : seq Q) ord s a r plus1 ds,
+  let resp' := List.map (fun i => List.nth i resp 0%Q) ord in
+  let g' := List.map (fun i => List.nth i g 0%Z) ord in
+  size resp' = size g' ->
+  ds \in tuples (prod_draws (sizes g' (unique g'))) r ->
+  let rows := [seq [seq nth 0%Q resp' i | i <- pwg_out g' t] | t <- ds] in
+  let tst := evalv s resp' in
+  s2s_callable g c resp ord s a r plus1 (flatten ds) =
+  Ok (strat_pvalue a (count_ge tst [seq evalv s row | row <- rows]) r plus1, tst, [seq evalv s row | row <- rows], rows, [::]).
+Proof. exact s2s_on_space. Qed.
+Print Assumptions C02_stratified_two_sample_on_the_answer_space.
+
 (* the 'greater' entry of the stratified tail table is the textbook (H+c)/(reps+c) *)
 Theorem C02_greater_tail_is_textbook : forall hits reps plus1,
   (strat_pvalue Greater hits reps plus1 == perm_pvalue (cc plus1) hits reps)%Q.
@@ -63,4 +124,14 @@ Print Assumptions C02_ksample_pvalue_is_textbook.
 
 Example C02_nonvacuous :
   permute_within_groups 0%Q [:: 1; 2; 3; 4; 5]%Q [:: 7; 8; 7; 8; 7]%Z [:: 2; 0; 0; 1; 0]%nat = Ok ([:: 5; 4; 3; 2; 1]%Q, [::]).
+Proof. vm_compute. reflexivity. Qed.
+
+(* the binomial law on a concrete design: strata {0,2} and {1,3}, 4 admissible arrangements, 2 of them keep unit 0
+   in place; of the 4^2 answer sequences for two repetitions, C(2,1)*2*2 = 8 give exactly one hit *)
+Example C02_binomial_nonvacuous :
+  let g := [:: 7; 8; 7; 8]%Z in let extreme := fun sg : seq nat => nth 0 sg 0 == 0 in
+  let space := prod_draws (sizes g (unique g)) in
+  (size space, count (fun t => extreme (pwg_out g t)) space,
+   count (fun ds => count extreme (if pwg_reps 0 (iota 0 4) g 2 (flatten ds) is Ok rt then rt.1 else [::]) == 1) (tuples space 2))
+  = (4, 2, 8).
 Proof. vm_compute. reflexivity. Qed.
